@@ -201,7 +201,7 @@ func writeReplay(prop, tier string, f Found) string {
 	rf := ReplayFile{Property: prop, Scenario: f.Scenario, Tier: tier, Clause: f.V.Clause, Detail: f.V.Detail,
 		Attrs: f.V.Attrs, Choices: f.V.Choices, Labels: f.V.Labels}
 	b, _ := json.MarshalIndent(rf, "", " ")
-	sum := sha256.Sum256([]byte(fmt.Sprint(prop, f.Scenario, f.V.Clause, f.V.Choices)))
+	sum := sha256.Sum256([]byte(fmt.Sprint(prop, f.Scenario, f.V.Clause, f.V.Choices, f.V.Labels, sig(f.V.Attrs))))
 	dir := filepath.Join(VerifDir, "replays")
 	_ = os.MkdirAll(dir, 0o755)
 	path := filepath.Join(dir, fmt.Sprintf("%s-%s.json", prop, hex.EncodeToString(sum[:6])))
@@ -517,7 +517,7 @@ func Replay(path string) int {
 	}
 	if replayCustom != nil {
 		if fn, ok := replayCustom[rf.Property+"/"+rf.Scenario]; ok {
-			return fn(&rf)
+			return fn(&rf, path)
 		}
 	}
 	for _, s := range c.Scenarios {
@@ -540,7 +540,7 @@ func Replay(path string) int {
 	return 2
 }
 
-var replayCustom = map[string]func(*ReplayFile) int{}
+var replayCustom = map[string]func(*ReplayFile, string) int{}
 
 func xplorViolation(clause, detail string, attrs map[string]string, choices []int, labels []string) xplor.Violation {
 	return xplor.Violation{Clause: clause, Detail: detail, Attrs: attrs, Choices: choices, Labels: labels}
